@@ -100,6 +100,7 @@ async def _scenario(seed: int) -> dict[str, Any]:
         async def connect_socket(self, sock: Any, address: Any) -> None:
             i = sock.idx
             sock.reached_connect = True
+            last_start[0] = loop.time()
             log("start", i)
             futs[i] = loop.create_future()
             await futs[i]
@@ -119,6 +120,8 @@ async def _scenario(seed: int) -> dict[str, Any]:
     mod._socket = proxy  # type: ignore[assignment]
     problems: list[str] = []
     seen_bindfail: set[int] = set()
+    last_start: list[float | None] = [None]
+    tick_info: dict[str, Any] = {"offset": -1, "scope_asked_first": False}
 
     def note_bindfails() -> None:
         # sockets that were created and closed without ever reaching connect_socket
@@ -132,6 +135,23 @@ async def _scenario(seed: int) -> dict[str, Any]:
         )
         ext_done = False
         logged_created = 0
+        # one scenario in six: the external cancellation is a timer armed before the race starts (so that, at the tick, it is served
+        # before the race's own deadline), due j stagger delays later plus k loop iterations; attempts stay pending until then
+        pre_tick = rng.random() < 0.17 and not bindfail
+        if pre_tick:
+            kk = rng.choice([0, 1, 1, 2, 3])
+            tick_info["offset"] = kk
+
+            def pre_cancel(j: int) -> None:
+                if j:
+                    loop.call_soon(pre_cancel, j - 1)
+                elif not caller.done():
+                    tick_info["scope_asked_first"] = caller.cancelling() > 0
+                    events.append({"ev": "ext_cancel", "i": 0, "nopen": -1, "which": 0})
+                    caller.cancel()
+
+            loop.call_at(loop.time() + DELAY * rng.choice([1, 2]), pre_cancel, kk)
+            ext_done = True
 
         async def settle_and_log() -> None:
             nonlocal logged_created
@@ -146,11 +166,15 @@ async def _scenario(seed: int) -> dict[str, Any]:
             await harness.settle()
             if caller.done():
                 break
+            if pre_tick and any(e["ev"] == "ext_cancel" for e in events):
+                break  # cancelled, at rest, still pending: judged below
             pending = [i for i, f in futs.items() if not f.done()]
             choices: list[str] = []
             if pending:
                 choices += ["ok", "err", "ok", "err"]
             choices.append("delay")
+            if pre_tick and not any(e["ev"] == "ext_cancel" for e in events):
+                choices = ["delay"]
             if not ext_done and rng.random() < 0.3:
                 choices.append("ext")
             c = rng.choice(choices)
@@ -173,6 +197,22 @@ async def _scenario(seed: int) -> dict[str, Any]:
                 if not caller.done():
                     log("obs")
             elif c == "delay":
+                if not ext_done and last_start[0] is not None and rng.random() < 0.35:
+                    # the caller is cancelled k loop iterations after a stagger tick (the instant at which the race's own
+                    # move_on_after scope around the wait for the current attempt expires and the next attempt is launched)
+                    ext_done = True
+                    k = rng.choice([0, 1, 1, 2, 3])
+                    tick_info["offset"] = k
+
+                    def cancel_after(j: int) -> None:
+                        if j:
+                            loop.call_soon(cancel_after, j - 1)
+                        elif not caller.done():
+                            tick_info["scope_asked_first"] = caller.cancelling() > 0
+                            events.append({"ev": "ext_cancel", "i": 0, "nopen": -1, "which": 0})
+                            caller.cancel()
+
+                    loop.call_at(last_start[0] + DELAY, cancel_after, k)
                 await asyncio.sleep(DELAY + 0.01)
             else:
                 ext_done = True
@@ -182,6 +222,12 @@ async def _scenario(seed: int) -> dict[str, Any]:
                 if not caller.done():
                     log("obs")
         await harness.settle()
+        if not caller.done() and any(e["ev"] == "ext_cancel" for e in events):
+            for _ in range(100):
+                await asyncio.sleep(0)
+            if not caller.done():
+                # the caller was cancelled, the loop is at rest, and the race goes on (no action of the specification has this name)
+                log("still_pending_after_cancel")
         if not caller.done():
             problems.append("the call never returned")
             caller.cancel()
@@ -214,7 +260,7 @@ async def _scenario(seed: int) -> dict[str, Any]:
     final = list(events)
     if problems:
         final.append({"ev": "problem", "i": 0, "nopen": 0, "which": 0})
-    return {"n": n, "events": final, "problems": problems, "meta": f"seed={seed} n={n} families={['v4' if f == socket.AF_INET else 'v6' for f in fams]} bindfail={sorted(bindfail)} local={None if local is None else ['v4' if x[0] == socket.AF_INET else 'v6' for x in local]}"}
+    return {"n": n, "events": final, "problems": problems, "tick": tick_info, "meta": f"seed={seed} n={n}{' external cancel %d iteration(s) after a stagger tick' % tick_info['offset'] if tick_info['offset'] >= 0 else ''} families={['v4' if f == socket.AF_INET else 'v6' for f in fams]} bindfail={sorted(bindfail)} local={None if local is None else ['v4' if x[0] == socket.AF_INET else 'v6' for x in local]}"}
 
 
 def _run_one(seed: int) -> dict[str, Any]:
@@ -251,7 +297,15 @@ def run(chk: Check) -> None:
         t = rec[idx]
         failing = t["events"][pos - 1] if 0 < pos <= len(t["events"]) else None
         chk.violation(
-            {"kind": "trace", "spec": "ConnectRace", "event": failing["ev"] if failing else "?"},
+            {
+                "kind": "trace",
+                "spec": "ConnectRace",
+                "event": failing["ev"] if failing else "?",
+                # the external cancellation was requested right after a stagger tick, when the race's own scope had just asked for the task's cancellation
+                "ext_cancel_after_stagger_tick": t.get("tick", {}).get("offset", -1) >= 0,
+                "scope_asked_first": bool(t.get("tick", {}).get("scope_asked_first", False)),
+                "still_pending_after_cancel": any(e["ev"] == "still_pending_after_cancel" for e in t["events"]),
+            },
             f"connection race: not a behaviour of ConnectRace (event #{pos}: {failing}; {t['problems']}) -- {t['meta']} events={[(e['ev'], e['i'], e['nopen']) for e in t['events']]}",
             {"kind": "race_trace", "trace": slim[idx], "meta": t["meta"], "rejected_at": pos},
         )
